@@ -648,6 +648,22 @@ func (r *rpcPlanningContext) buildField(parentTypeName string, fieldDef int, fie
 	return field, nil
 }
 
+// fieldPathSegment returns the path segment of a field in the protobuf message of its parent type.
+// If we have a nested or nullable list, we add a @ prefix to indicate the nesting level.
+func (r *rpcPlanningContext) fieldPathSegment(parentTypeName string, fieldDef int, fieldName string) ([]byte, error) {
+	field, err := r.buildField(parentTypeName, fieldDef, fieldName, "")
+	if err != nil {
+		return nil, err
+	}
+
+	prefix := ""
+	if field.ListMetadata != nil {
+		prefix = strings.Repeat("@", field.ListMetadata.NestingLevel)
+	}
+
+	return []byte(prefix + field.Name), nil
+}
+
 // createRPCFieldFromFieldArgument builds an RPCField from an input value definition.
 // It handles scalar, enum, and input object types.
 // If the type is an input object type, a message is created and added to the field.
